@@ -293,3 +293,36 @@ func H_C18_changetype() {
 	}
 	verif.Reach("end")
 }
+
+type fixedArity struct {
+	name  string
+	arity int
+}
+
+var c18Arities = []fixedArity{
+	{"FIRST", 1}, {"LAST", 1}, {"ELEMENTAT", 2}, {"DEFAULTKEY", 1}, {"CHANGETYPE", 2}, {"UNWIND", 1}, {"IF", 3},
+	{"DATERANGE", 2}, {"CONSTANT", 1}, {"GETVAR", 1}, {"SETVAR", 2}, {"RAISE_WHEN", 2}, {"RAISE", 1}, {"REPORT_WHEN", 2},
+	{"REPORT", 1}, {"TO_LOWER", 1}, {"TO_UPPER", 1}, {"HASH", 2}, {"ENCODE", 2}, {"DECODE", 2}, {"TIMESTAMP", 0},
+}
+
+// H_C18_arity: every fixed-arity function rejects every other argument
+// count (0 .. arity+2) with an error; no result, no panic.
+func H_C18_arity() {
+	fi := verif.Choose("func", len(c18Arities))
+	k := verif.Choose("args", 6)
+	f := c18Arities[fi]
+	if k == f.arity || k > f.arity+2 {
+		verif.Assume(false)
+	}
+	args := ""
+	for i := 0; i < k; i++ {
+		if i > 0 {
+			args += ", "
+		}
+		args += []string{"arr", "1", "s", "b", "x", "nul"}[i]
+	}
+	doc := Map{"t": []any{Map{"arr": []any{float64(1), float64(2)}, "s": "base64", "b": true, "x": float64(3), "nul": nil}}}
+	got, err := runQueryQuiet(doc, "SELECT "+f.name+"("+args+") AS v FROM t", WithVars(map[string]any{}), WithConstants(map[string]any{"s": 1}))
+	verif.Assert(err != nil && len(got) == 0, "wrong-argument-count-is-error")
+	verif.Reach("end")
+}
